@@ -200,6 +200,34 @@ def install_c02(ctx, prop="C02"):
         return post
 
     E, EQ, NE = single.MarkerExpression, single.EqualityMarkerUnion, single.InequalityMultiMarker
+
+    # operands must not be changed by a combinator call (aliasing of children tuples / value sets, flipped flags)
+    def deep(m):
+        if isinstance(m, E):
+            return ("atom", m.name, m.op, m.value, m.reversed)
+        if isinstance(m, (EQ, NE)):
+            return (type(m).__name__, m.name, tuple(m.values))
+        if isinstance(m, (M.MultiMarker, M.MarkerUnion)):
+            return (type(m).__name__, tuple(deep(c) for c in m.markers))
+        return (type(m).__name__,)
+
+    def snap(args, kwargs):
+        return tuple(deep(x) if is_marker(x) else None for x in args[:3])
+
+    def unchanged(name):
+        def post(args, kwargs, r, token):
+            if token is not None and snap(args, kwargs) != token:
+                violation(prop, f"{name} (operands)", "a combinator call changed one of its operands",
+                          {"before": repr(token)[:400], "after": repr(snap(args, kwargs))[:400], "stratum": ctx.stratum,
+                           "group": "mutation"})
+        return post
+
+    for cls in (E, EQ, NE, M.MultiMarker, M.MarkerUnion):
+        n = cls.__name__
+        al_and = () if cls is E else ("__rand__",)
+        al_or = () if cls is E else ("__ror__",)
+        install(cls, "__and__", unchanged(n + ".__and__"), pre=snap, mon=f"immutable.{n}.__and__", aliases=al_and)
+        install(cls, "__or__", unchanged(n + ".__or__"), pre=snap, mon=f"immutable.{n}.__or__", aliases=al_or)
     install(E, "__and__", bin_post("MarkerExpression.__and__", AND))
     install(E, "__or__", bin_post("MarkerExpression.__or__", OR))
     for cls in (EQ, NE, M.MultiMarker, M.MarkerUnion, M.AnyMarker, M.EmptyMarker):
